@@ -15,9 +15,42 @@ PID = 'C17'
 
 
 def units(tier, seed):
-    return [{'name': f'corpus {name}', 'fn': 'unit_item', 'args': {'item': name, 'n': 1, 'm': 1, 'tier': tier},
-             'split': 0}
-            for name in c17_corpus.ITEMS]
+    us = [{'name': f'corpus {name}', 'fn': 'unit_item', 'args': {'item': name, 'n': 1, 'm': 1, 'tier': tier},
+           'split': 0}
+          for name in c17_corpus.ITEMS]
+    us.append({'name': 'literal multi-process run', 'fn': 'unit_literal',
+               'args': {'seeds': [0, 1, 2, 3, 4, 5] if tier == 'quick' else list(range(24)), 'n': 1, 'm': 1}})
+    return us
+
+
+def unit_literal(args, prefix=(), max_depth=None):
+    """Supplement (sampling, stated as such): sets that are created inside C code -- e.g. ``dict_keys - set`` -- are
+    beyond the reach of the load-time transform, so the whole corpus is also run literally in separate interpreter
+    processes under a few PYTHONHASHSEED values and the transcripts are compared."""
+    import os
+    import subprocess
+    import sys
+    seeds = args['seeds']
+    outs = {}
+    for s in seeds:
+        env = dict(os.environ, PYTHONHASHSEED=str(s), PYTHONPATH=common.VERIF)
+        r = subprocess.run([sys.executable, '-m', 'checks.c17_corpus', '--all'], capture_output=True, text=True, env=env,
+                           cwd=common.VERIF)
+        if r.returncode != 0:
+            return {'paths': 0, 'cex': [], 'queries': 0, 'cuts': [], 'samples': [],
+                    'inconclusive': [f'literal corpus run failed under PYTHONHASHSEED={s}: {r.stderr[-300:]}']}
+        outs[s] = json.loads(r.stdout)
+    cex = []
+    first = outs[seeds[0]]
+    for name in first:
+        if any(outs[s][name] != first[name] for s in seeds):
+            cex.append({'kind': 'determinism', 'item': name, 'what': f'transcript of {name} differs between hash seeds '
+                                                                     f'(literal run)'})
+    return {'paths': len(seeds), 'cex': cex, 'queries': len(first) * len(seeds), 'cuts': [],
+            'samples': [{'unit': 'literal multi-process run', 'seeds': list(seeds), 'items': len(first)}],
+            'inconclusive': [], 'bounds': f'all {len(first)} corpus items in {len(seeds)} separate processes (hash seeds {list(seeds)}): '
+                                          f'sampling, supplementary to the order model',
+            'stubs': []}
 
 
 def unit_item(args, prefix=(), max_depth=None):
